@@ -23,6 +23,26 @@ CHECKS = {
                   "against a reference predicate (explicit-state, on the implementation)",
         engine="enum",
     ),
+    "C03": dict(
+        category="model_checking",
+        text="Explicit-state BFS over operation histories on the real "
+             "Indentation (30-op alphabet to depth 3/4 plus four focused "
+             "drivers to depth 3-6) with a differential from-scratch oracle "
+             "per new state and an optimisation counter per transition; the "
+             "settings store (FitProperties) alone is explored to closure "
+             "against a dict + ghost-bit reference. History-dependence bugs "
+             "need 2-4 specific calls in sequence, which is exactly what an "
+             "exhaustive bounded search over call sequences finds.",
+        design_ref="DESIGN.md §2 C03",
+        note="Depth-bounded for the whole-curve layer; the fresh-object "
+             "oracle cannot see errors a fresh object shares (C02/C04/C05). "
+             "Known finding D13 (stale result columns) is listed in "
+             "known_findings.json.",
+        technique="explicit-state BFS over operation histories of the real "
+                  "object, canonical-state dedup, differential fresh-object "
+                  "oracle; closure search of the settings store",
+        engine="hist+store",
+    ),
 }
 
 NA_REASON = "check not built yet in this session (under construction; see DESIGN.md §9 work order)"
@@ -59,6 +79,10 @@ def build():
         "engines": [
             {"name": "enum", "path": "mc/props/c14.py", "serves_properties": ["C14"],
              "kind_free_text": "complete enumeration of a finite input domain on the implementation"},
+            {"name": "hist", "path": "mc/hist.py", "serves_properties": ["C03"],
+             "kind_free_text": "explicit-state breadth-first search over operation histories on real objects (replay from scratch, canonical state hash, per-state and per-transition oracles, merge-soundness and determinism self-checks)"},
+            {"name": "store", "path": "mc/props/c03_store.py", "serves_properties": ["C03"],
+             "kind_free_text": "closure (fixpoint) search of small dictionary-like stores against a reference model"},
         ],
         "checks": checks,
         "notes": "All checks run the real nanite code from /repo/src (no build step). Exit 0 = held, 1 = VIOLATION, 2 = harness error (no verdict). known_findings.json lists genuine defects (fixed ones with their fix: commit).",
